@@ -2,6 +2,8 @@ open Datatypes
 
 val nth : nat -> 'a1 list -> 'a1 -> 'a1
 
+val nth_error : 'a1 list -> nat -> 'a1 option
+
 val map : ('a1 -> 'a2) -> 'a1 list -> 'a2 list
 
 val repeat : 'a1 -> nat -> 'a1 list
